@@ -6,6 +6,7 @@ import (
 	storageerrors "github.com/formancehq/ledger/internal/storage/sqlutils"
 
 	ledger "github.com/formancehq/ledger/internal"
+	"github.com/formancehq/ledger/internal/verifhook"
 	"github.com/formancehq/stack/libs/go-libs/logging"
 )
 
@@ -18,10 +19,12 @@ func (e *executionContext) AppendLog(ctx context.Context, log *ledger.Log) (*led
 	if e.parameters.DryRun {
 		ret := make(chan struct{})
 		close(ret)
+		verifhook.Yield(ctx, "dryrun")
 		return log.ChainLog(nil), ret, nil
 	}
 
 	chainedLog := e.commander.chainLog(log)
+	verifhook.Yield(ctx, "chained", "id", chainedLog.ID)
 	logging.FromContext(ctx).WithFields(map[string]any{
 		"id": chainedLog.ID,
 	}).Debugf("Appending log")
@@ -29,6 +32,7 @@ func (e *executionContext) AppendLog(ctx context.Context, log *ledger.Log) (*led
 	e.commander.Append(chainedLog, func() {
 		close(done)
 	})
+	verifhook.Yield(ctx, "appended")
 	return chainedLog, done, nil
 }
 
@@ -38,20 +42,25 @@ func (e *executionContext) run(ctx context.Context, executor func(e *executionCo
 			return nil, err
 		}
 		defer e.commander.referencer.release(referenceIks, ik)
+		verifhook.Yield(ctx, "ik.taken")
 
 		chainedLog, err := e.commander.store.ReadLogWithIdempotencyKey(ctx, ik)
 		if err == nil {
+			verifhook.Yield(ctx, "ik.hit")
 			return chainedLog, nil
 		}
 		if err != nil && !storageerrors.IsNotFoundError(err) {
 			return nil, err
 		}
+		verifhook.Yield(ctx, "ik.checked")
 	}
 	chainedLog, done, err := executor(e)
 	if err != nil {
 		return nil, err
 	}
+	verifhook.Yield(ctx, "waitdone")
 	<-done
+	verifhook.Yield(ctx, "done")
 	logger := logging.FromContext(ctx).WithFields(map[string]any{
 		"id": chainedLog.ID,
 	})
